@@ -190,14 +190,16 @@ BigClipOK(n, K, C, cap, Wm, We, c) ==
 BigModOK(n, K, R, We, Wr, c) ==
   \A k \in (1 + c)..K : \A i, j \in 1..n : We[k][i][j] <= 29 => Wr[k][i][j] = R[k - c][i][j]
 BigRecOK(n, K, nb, Wm, We, c) ==
-  \A k \in (1 + c)..(K - 1) : \A i, j \in 1..n :
-     FNear(FSum(nb[j], LAMBDA l : Wm[k][i][l], LAMBDA l : We[k][i][l], LAMBDA l : ObsB(We[k][i][l])),
-           Obs(Wm[k + 1][i][j], We[k + 1][i][j]))
+  \A k \in (1 + c)..(K - 1) : \A i \in 1..n :
+     LET rm == Wm[k][i]  re == We[k][i]  sm == Wm[k + 1][i]  se == We[k + 1][i] IN
+     \A j \in 1..n :
+        FNear(FSum(nb[j], LAMBDA l : rm[l], LAMBDA l : re[l], LAMBDA l : ObsB(re[l])), Obs(sm[j], se[j]))
 (* the common in- and out-degree of a regular 0/1 digraph, else 0                            *)
 RegDeg(n, A) == LET d == OutStr(n, A, 1) IN
   IF \A i \in 1..n : OutStr(n, A, i) = d /\ InStr(n, A, i) = d THEN d ELSE 0
 BigRowSum(n, Wm, We, k, i) ==
-  FSum(1..n, LAMBDA j : Wm[k][i][j], LAMBDA j : We[k][i][j], LAMBDA j : ObsB(We[k][i][j]))
+  LET rm == Wm[k][i]  re == We[k][i] IN
+  FSum(1..n, LAMBDA j : rm[j], LAMBDA j : re[j], LAMBDA j : ObsB(re[j]))
 BigColSum(n, Wm, We, k, j) ==
   FSum(1..n, LAMBDA i : Wm[k][i][j], LAMBDA i : We[k][i][j], LAMBDA i : ObsB(We[k][i][j]))
 BigRegularOK(n, K, A, Wm, We, c) ==
